@@ -17,7 +17,7 @@ PROP = {
         "half of the configurations add an independent fixed-window quota that never refuses (100000 per minute), consulted by a second Limiter behind or in front of the concurrency Limiter: every way a transaction ends must still free the concurrency slot",
         "in-memory shared state only; cluster liveness (multi-gateway) is not modelled",
         "between a slot's expiry and the next collector pass either verdict is accepted (the statement says 'at the latest when its expiry passes'; the implementation collects periodically)",
-        "transaction ids are unique per transaction, as HAProxy's unique-id guarantees",
+        "transaction ids are unique per transaction, as HAProxy's unique-id guarantees, but free text (the proxy takes them from the client's x-lunar-req-id header): per configuration they read t<n>, or come in pairs 'order-k::retry' / 'order-k' (the separator the quota uses inside its set members; the longer id starts first, is never answered and expires while the other is still in flight and then answered), or contain spaces, colons and non-ASCII",
     ],
     "units": [
         {"pkg": "c02", "test": "TestHeldAtStateOperations", "quick": 600, "thorough": 12000, "shards": 8, "quick_shards": 2},
